@@ -109,7 +109,7 @@ var EnumLayouts = []string{"compact", "lines", "commented", "packed"}
 // EnumLayout writes the literal list in one of the layouts. The text always ends with ']'.
 func EnumLayout(r *mon.Rng, lits []string, layout string) EnumText {
 	et := EnumText{Layout: layout, CommentsDecided: true}
-	nl := mon.Pick(r, []string{"\n", "\n", "\n", "\r\n"})
+	nl := mon.Pick(r, []string{"\n", "\n", "\n", "\r\n", "\r"}) // a lone CR is a line end too
 	ind := mon.Pick(r, []string{"  ", "\t", "", "    ", "\t\t"})
 	var sb strings.Builder
 	blank := func(p, q int) string {
